@@ -2,6 +2,7 @@
     Statements only; proofs in Proofs/DataProofs.v, SessionProofs.v, TraceProofs.v. *)
 From Qv Require Import Common.Bytes Gen.GenNetio Gen.GenSession Model.NetRead Model.Session Model.Trace
   Spec.LineSpec Spec.SessionSpec Proofs.NetReadProofs Proofs.DataProofs Proofs.SessionProofs Proofs.TraceProofs Proofs.HandoffMsg.
+From Qv Require Gen.GenSpf Model.SpfEnv Model.Spf.
 
 (** Message: when smtp_data reaches the terminating dot ([D_eod]), what was written to qmail-queue is the
     trace header followed by exactly the client's data lines [seen], in order, each with CRLF turned into LF and
@@ -150,6 +151,23 @@ Proof. exact spf_none_field_shape. Qed.
 Print Assumptions C02_trace_spf_none.
 
 (** submission port, relay client: Date and Message-Id are missing and added, From is there (upper case) and kept *)
+(** the Received-SPF field of this file ([spf_none_field], the only one the session model's own trace header builds) IS the
+    output of the literal model of spfreceived() of property C11 (Model/Spf.v) for the result "none": same octets, for every
+    session [X] and state [g].  For the other results (pass, fail, softfail, neutral, ...) the correspondence run of the session
+    engine takes the field from the extracted C11 model itself ([trace_header_with]), and C11_received_spf_clean is the theorem
+    about its syntax. *)
+Theorem C02_trace_spf_none_is_c11 : forall X g,
+  Spf.spfreceived X GenSpf.SPF_NONE g
+  = Some (spf_none_field (SpfEnv.s_heloname X) (match SpfEnv.s_mailfrom X with [] => SpfEnv.HELOSTR X | m => m end)).
+Proof.
+  intros X g. unfold Spf.spfreceived, Spf.spfdomain, Spf.lit, spf_none_field.
+  change (GenSpf.SPF_NONE =? GenSpf.SPF_IGNORE)%Z with false. change (GenSpf.SPF_NONE =? GenSpf.SPF_PERMERROR)%Z with false.
+  change (GenSpf.SPF_NONE =? GenSpf.SPF_DNS_HARD_ERROR)%Z with false. change (GenSpf.SPF_NONE =? GenSpf.SPF_TEMPERROR)%Z with false.
+  change (GenSpf.SPF_NONE =? GenSpf.SPF_NONE)%Z with true. cbn [orb].
+  cbn [nth Z.to_nat GenSpf.SPF_NONE GenSpf.RCV_LIT GenSpf.RCV_RESULT]. rewrite <- !app_assoc. reflexivity.
+Qed.
+Print Assumptions C02_trace_spf_none_is_c11.
+
 Example C02_nonvacuous_submission :
   let o := {| o_helo := fun _ => true;
               o_addr := fun _ arg => match arg with 60%N :: c :: _ => AP_ok [c] None RLocal | _ => AP_nobracket end;
